@@ -277,7 +277,62 @@ def is_panic_expn(n):
 
 
 def diverges(n):
-    return bool(n.get("never"))
+    """Structural divergence: control never falls out of `n` normally."""
+    if not isinstance(n, dict):
+        return False
+    if n.get("never"):
+        return True
+    k = kind(n)
+    if k in ("Ret", "Break", "Continue", "Become"):
+        return True
+    if k == "Block" or (k is None and "stmts" in n):
+        for st in n.get("stmts", []):
+            sk = kind(st)
+            if sk in ("Semi", "Expr") and diverges(st["e"]):
+                return True
+            if sk == "Let" and st.get("init") is not None and diverges(st["init"]):
+                return True
+        return n.get("expr") is not None and diverges(n["expr"])
+    if k == "If":
+        return diverges(n["c"]) or (n.get("e") is not None and diverges(n["t"]) and diverges(n["e"]))
+    if k == "Match":
+        return diverges(n["scrut"]) or (bool(n["arms"]) and all(diverges(a["body"]) for a in n["arms"]))
+    if k in ("Call", "MethodCall"):
+        return any(diverges(a) for a in call_args(n))
+    if k in ("AddrOf", "Use", "Type", "Cast", "Unary", "Field"):
+        return diverges(n["e"])
+    return False
+
+
+PANIC_MACROS = {"panic", "unreachable", "unimplemented", "todo", "assert", "assert_eq", "assert_ne",
+                "debug_assert", "debug_assert_eq", "debug_assert_ne"}
+
+
+def panic_kind(n):
+    """If evaluating `n` (an arm body / else block) ends in an explicit panic, the macro name."""
+    for x in walk_no_closures(n):
+        e = x.get("expn") or []
+        for m in e:
+            if m in PANIC_MACROS:
+                return m
+        if kind(x) in ("Call", "MethodCall"):
+            c = callee(x) or ""
+            if c.startswith("core::panicking::") or c.startswith("std::rt::begin_panic") or \
+                    c.endswith("::unwrap_failed") or c.endswith("::expect_failed"):
+                return "panic"
+    return None
+
+
+def exits_by_panic_only(n):
+    """`n` diverges and contains no return/break/continue/`?`: the only way out is a panic."""
+    if not diverges(n):
+        return False
+    for x in walk_no_closures(n):
+        if kind(x) in ("Ret", "Break", "Continue"):
+            return False
+        if is_try(x):
+            return False
+    return panic_kind(n) is not None
 
 
 def matches_of(node, scrut_ty_pred):
